@@ -1,0 +1,261 @@
+//go:build verif
+
+package quickfix
+
+// Verification-only exports (build tag "verif"). Nothing in this file is
+// compiled into a normal build. It gives an external conformance harness
+// synchronous access to the session state machine's own entry points and
+// read-only access to the abstract state it projects.
+
+import (
+	"bytes"
+	"io"
+	"sort"
+	"time"
+
+	"github.com/quickfixgo/quickfix/internal"
+)
+
+// VerifSession wraps a real session built by the real session factory.
+type VerifSession struct {
+	s *session
+}
+
+// VerifIn is the inbound channel of a connection, owned by the harness.
+type VerifIn struct {
+	ch chan fixIn
+}
+
+// VerifNewIn creates an inbound channel with the given capacity.
+func VerifNewIn(capacity int) *VerifIn { return &VerifIn{ch: make(chan fixIn, capacity)} }
+
+// Put places a frame in the inbound channel without consuming it.
+func (in *VerifIn) Put(b []byte) bool {
+	select {
+	case in.ch <- fixIn{bytes.NewBuffer(append([]byte(nil), b...)), time.Now()}:
+		return true
+	default:
+		return false
+	}
+}
+
+// Len is the number of buffered frames.
+func (in *VerifIn) Len() int { return len(in.ch) }
+
+// Close closes the inbound channel.
+func (in *VerifIn) Close() { close(in.ch) }
+
+// VerifNewSession builds a session through sessionFactory.newSession.
+func VerifNewSession(sessionID SessionID, storeFactory MessageStoreFactory, settings *SessionSettings,
+	logFactory LogFactory, app Application, initiator bool) (*VerifSession, error) {
+	f := sessionFactory{BuildInitiators: initiator}
+	s, err := f.newSession(sessionID, storeFactory, settings, logFactory, app)
+	if err != nil {
+		return nil, err
+	}
+	return &VerifSession{s: s}, nil
+}
+
+// VerifRegister registers the session in the global registry (SendToTarget).
+func (v *VerifSession) VerifRegister() error { return registerSession(v.s) }
+
+// VerifUnregister removes the session from the registry.
+func (v *VerifSession) VerifUnregister() { _ = UnregisterSession(v.s.sessionID) }
+
+// InstallTimers gives the session real (never firing within a test) event timers
+// so that EventTimer.Reset is reached and reported through internal.VerifTimerHook.
+// It returns identifiers of (stateTimer, peerTimer).
+func (v *VerifSession) InstallTimers() (state, peer *internal.EventTimer) {
+	v.s.stateTimer = internal.NewEventTimer(func() {})
+	v.s.peerTimer = internal.NewEventTimer(func() {})
+	return v.s.stateTimer, v.s.peerTimer
+}
+
+// SetTimerHook installs the EventTimer.Reset observer: which is 0 for the
+// heartbeat (state) timer, 1 for the peer timer of this session.
+func (v *VerifSession) SetTimerHook(cb func(which int, d time.Duration)) {
+	st, pt := v.s.stateTimer, v.s.peerTimer
+	internal.VerifTimerHook = func(t *internal.EventTimer, d time.Duration) {
+		switch t {
+		case st:
+			cb(0, d)
+		case pt:
+			cb(1, d)
+		}
+	}
+}
+
+// StopTimers stops the timers installed by InstallTimers.
+func (v *VerifSession) StopTimers() {
+	v.s.stateTimer.Stop()
+	v.s.peerTimer.Stop()
+}
+
+// SwallowEvents consumes the session's timer event channel (logon/logout
+// AfterFunc events) until stop is closed; a synchronous driver injects
+// timeouts explicitly.
+func (v *VerifSession) SwallowEvents(stop <-chan struct{}) {
+	go func() {
+		for {
+			select {
+			case <-v.s.sessionEvent:
+			case <-stop:
+				return
+			}
+		}
+	}()
+}
+
+func (v *VerifSession) Start() { v.s.Start(v.s) }
+
+// Connect performs what the run loop does on a connect request.
+func (v *VerifSession) Connect(in *VerifIn, out chan []byte) error {
+	rep := make(chan error, 1)
+	v.s.onAdmin(connect{messageOut: out, messageIn: in.ch, err: rep})
+	return <-rep
+}
+
+func (v *VerifSession) Incoming(b []byte) {
+	v.s.Incoming(v.s, fixIn{bytes.NewBuffer(append([]byte(nil), b...)), time.Now()})
+}
+
+// Timeout injects a timer event: 0 PeerTimeout, 1 NeedHeartbeat, 2 LogonTimeout, 3 LogoutTimeout.
+func (v *VerifSession) Timeout(ev int)   { v.s.Timeout(v.s, internal.Event(ev)) }
+func (v *VerifSession) SendAppMessages() { v.s.SendAppMessages(v.s) }
+func (v *VerifSession) Disconnected()    { v.s.Disconnected(v.s) }
+func (v *VerifSession) Stop()            { v.s.onAdmin(stopReq{}) }
+func (v *VerifSession) Tick(now time.Time) {
+	v.s.CheckSessionTime(v.s, now)
+	v.s.CheckResetTime(v.s, now)
+}
+
+// Send is what SendToTarget does once the session has been looked up.
+func (v *VerifSession) Send(m Messagable) error { return v.s.queueForSend(m.ToMessage()) }
+
+// Run and RunConnect/RunStop drive the real run loop (live scenarios).
+func (v *VerifSession) Run() { v.s.run() }
+func (v *VerifSession) RunConnect(in *VerifIn, out chan []byte) error {
+	return v.s.connect(in.ch, out)
+}
+func (v *VerifSession) RunStop() { v.s.stop() }
+
+// Observers.
+
+func verifStateName(st sessionState) string {
+	switch t := st.(type) {
+	case pendingTimeout:
+		return "pending(" + verifStateName(t.sessionState) + ")"
+	case inSession:
+		return "inSession"
+	case resendState:
+		return "resend"
+	case logonState:
+		return "logon"
+	case logoutState:
+		return "logout"
+	case notSessionTime:
+		return "notSessionTime"
+	case latentState:
+		return "latent"
+	}
+	return "unknown"
+}
+
+func (v *VerifSession) StateName() string { return verifStateName(v.s.State) }
+
+func (v *VerifSession) resend() (resendState, bool) {
+	switch t := v.s.State.(type) {
+	case resendState:
+		return t, true
+	case pendingTimeout:
+		if r, ok := t.sessionState.(resendState); ok {
+			return r, true
+		}
+	}
+	return resendState{}, false
+}
+
+// Stash returns the sequence numbers of the early messages kept by a recovery.
+func (v *VerifSession) Stash() []int {
+	r, ok := v.resend()
+	if !ok {
+		return nil
+	}
+	keys := make([]int, 0, len(r.messageStash))
+	for k := range r.messageStash {
+		keys = append(keys, k)
+	}
+	sort.Ints(keys)
+	return keys
+}
+
+// ResendRange returns (currentResendRangeEnd, resendRangeEnd).
+func (v *VerifSession) ResendRange() (int, int) {
+	r, _ := v.resend()
+	return r.currentResendRangeEnd, r.resendRangeEnd
+}
+
+func (v *VerifSession) QueueLen() int             { return len(v.s.toSend) }
+func (v *VerifSession) SentReset() bool           { return v.s.sentReset }
+func (v *VerifSession) HeartBtInt() time.Duration { return v.s.HeartBtInt }
+func (v *VerifSession) Connected() bool           { return v.s.messageOut != nil }
+func (v *VerifSession) PendingStop() bool         { return v.s.pendingStop }
+func (v *VerifSession) Stopped() bool             { return v.s.stopped }
+func (v *VerifSession) Store() MessageStore       { return v.s.store }
+func (v *VerifSession) ID() SessionID             { return v.s.sessionID }
+
+// SetSessionTime installs a schedule built with the VerifTimeRange constructors.
+func (v *VerifSession) SetSessionTime(r *VerifTimeRange) {
+	if r == nil {
+		v.s.SessionTime = nil
+		return
+	}
+	v.s.SessionTime = r.r
+}
+
+// VerifParser wraps the stream framer.
+type VerifParser struct{ p *parser }
+
+// VerifNewParser creates a framer; bufSize > 0 pre-seeds a small backing
+// buffer so that the shift and grow paths are reached on short streams.
+func VerifNewParser(reader io.Reader, bufSize int) *VerifParser {
+	p := newParser(reader)
+	if bufSize > 0 {
+		p.bigBuffer = make([]byte, bufSize)
+		p.buffer = p.bigBuffer[0:0]
+	}
+	return &VerifParser{p: p}
+}
+
+func (vp *VerifParser) ReadMessage() ([]byte, error) {
+	b, err := vp.p.ReadMessage()
+	if b == nil {
+		return nil, err
+	}
+	return b.Bytes(), err
+}
+
+// VerifTimeRange re-exports internal.TimeRange for external harnesses.
+type VerifTimeRange struct{ r *internal.TimeRange }
+
+func VerifNewTimeRange(sh, sm, ss, eh, em, es int, weekdays []time.Weekday, loc *time.Location) (*VerifTimeRange, error) {
+	r, err := internal.NewTimeRangeInLocation(internal.NewTimeOfDay(sh, sm, ss), internal.NewTimeOfDay(eh, em, es), weekdays, loc)
+	if err != nil {
+		return nil, err
+	}
+	return &VerifTimeRange{r}, nil
+}
+
+func VerifNewWeekRange(sh, sm, ss, eh, em, es int, startDay, endDay time.Weekday, loc *time.Location) (*VerifTimeRange, error) {
+	r, err := internal.NewWeekRangeInLocation(internal.NewTimeOfDay(sh, sm, ss), internal.NewTimeOfDay(eh, em, es), startDay, endDay, loc)
+	if err != nil {
+		return nil, err
+	}
+	return &VerifTimeRange{r}, nil
+}
+
+func (t *VerifTimeRange) IsInRange(x time.Time) bool        { return t.r.IsInRange(x) }
+func (t *VerifTimeRange) IsInSameRange(a, b time.Time) bool { return t.r.IsInSameRange(a, b) }
+
+// VerifBodyBytes exposes the raw body slice remembered by the parser.
+func VerifBodyBytes(m *Message) []byte { return m.bodyBytes }
